@@ -30,11 +30,13 @@ pub enum Entry {
     FromStr,
     SliceWith,
     Slice,
+    /// `Parser::new_with(stream, options)` + `T::parse_in(&mut parser, context)` (public API too; C03 only)
+    ParseIn,
 }
 
-pub const ALL_ENTRIES: [Entry; 13] = [
+pub const ALL_ENTRIES: [Entry; 14] = [
     Entry::ParseWith, Entry::Parse, Entry::Utf8With, Entry::Utf8, Entry::InfallibleWith, Entry::Infallible,
-    Entry::Utf8InfallibleWith, Entry::InfallibleUtf8, Entry::StrWith, Entry::Str, Entry::FromStr, Entry::SliceWith, Entry::Slice,
+    Entry::Utf8InfallibleWith, Entry::InfallibleUtf8, Entry::StrWith, Entry::Str, Entry::FromStr, Entry::SliceWith, Entry::Slice, Entry::ParseIn,
 ];
 
 impl Entry {
@@ -44,19 +46,19 @@ impl Entry {
             Entry::InfallibleWith => "parse_infallible_with", Entry::Infallible => "parse_infallible",
             Entry::Utf8InfallibleWith => "parse_utf8_infallible_with", Entry::InfallibleUtf8 => "parse_infallible_utf8",
             Entry::StrWith => "parse_str_with", Entry::Str => "parse_str", Entry::FromStr => "from_str",
-            Entry::SliceWith => "parse_slice_with", Entry::Slice => "parse_slice",
+            Entry::SliceWith => "parse_slice_with", Entry::Slice => "parse_slice", Entry::ParseIn => "parser_parse_in",
         }
     }
     pub fn from_name(s: &str) -> Option<Entry> { ALL_ENTRIES.iter().copied().find(|e| e.name() == s) }
     /// Does the entry honour per-character byte lengths (`DecodedChar::new(c, len)`)?
-    pub fn custom_len(self) -> bool { matches!(self, Entry::ParseWith | Entry::Parse | Entry::InfallibleWith | Entry::Infallible) }
+    pub fn custom_len(self) -> bool { matches!(self, Entry::ParseWith | Entry::Parse | Entry::InfallibleWith | Entry::Infallible | Entry::ParseIn) }
     /// Can the stream behind this entry fail (`Some(Err(_))`)?
-    pub fn fallible(self) -> bool { matches!(self, Entry::ParseWith | Entry::Parse | Entry::Utf8With | Entry::Utf8) }
+    pub fn fallible(self) -> bool { matches!(self, Entry::ParseWith | Entry::Parse | Entry::Utf8With | Entry::Utf8 | Entry::ParseIn) }
     /// Is the input an iterator owned by the simulator (so `None` need not be final)?
     pub fn iterator(self) -> bool { !matches!(self, Entry::StrWith | Entry::Str | Entry::FromStr | Entry::SliceWith | Entry::Slice) }
     pub fn bytes(self) -> bool { matches!(self, Entry::SliceWith | Entry::Slice) }
     pub fn takes_options(self) -> bool {
-        matches!(self, Entry::ParseWith | Entry::Utf8With | Entry::InfallibleWith | Entry::Utf8InfallibleWith | Entry::StrWith | Entry::SliceWith)
+        matches!(self, Entry::ParseWith | Entry::Utf8With | Entry::InfallibleWith | Entry::Utf8InfallibleWith | Entry::StrWith | Entry::SliceWith | Entry::ParseIn)
     }
 }
 
@@ -87,6 +89,8 @@ pub struct StreamSc {
     pub src: Src,
     /// Names of the faults that produced `src` (informational; the scenario is `src`).
     pub faults: Vec<String>,
+    /// `Context` handed to `parse_in` by the `ParseIn` entry: 0 None, 1 Array, 2 ObjectKey, 3 ObjectValue
+    pub context: u8,
 }
 
 impl StreamSc {
@@ -151,6 +155,7 @@ impl StreamSc {
             }
         }
         o.push(("faults".into(), J::Arr(self.faults.iter().map(|s| J::Str(s.clone())).collect())));
+        if self.entry == Entry::ParseIn { o.push(("context".into(), J::UInt(self.context as u64))); }
         J::Obj(o)
     }
 
@@ -180,12 +185,13 @@ impl StreamSc {
             Src::Events(evs)
         };
         let faults = j.get("faults").and_then(J::as_arr).map(|a| a.iter().filter_map(|x| x.as_str().map(String::from)).collect()).unwrap_or_default();
-        Ok(StreamSc { entry, target, opts, src, faults })
+        let context = j.get("context").and_then(J::as_u64).unwrap_or(0) as u8;
+        Ok(StreamSc { entry, target, opts, src, faults, context })
     }
 
     pub fn digest(&self) -> u64 {
         let mut d = Digest::default();
-        d.u8(self.entry as u8); d.u8(self.target as u8);
+        d.u8(self.entry as u8); d.u8(self.target as u8); if self.entry == Entry::ParseIn { d.u8(self.context) }
         if self.entry.takes_options() { d.u8(self.opts.0 as u8 | (self.opts.1 as u8) << 1); } else { d.u8(0) }
         match &self.src {
             Src::Events(evs) => for e in evs { match e { Ev::Item(c, l) => { d.u64((*c as u64) << 8 | *l as u64) } Ev::Fail(i) => d.u64(1 << 40 | *i as u64), Ev::End => d.u64(2 << 40) } },
